@@ -152,33 +152,45 @@ namespace sqf::runtime
             iterator_base(confighost& confighost, size_t config_index) :
                 m_confighost(confighost),
                 m_index(0),
-                m_id(config_index) {}
+                m_id(config_index) { settle(); }
 
             iterator_base<recursive>& operator++()
+            {
+                if (m_id != config::invalid_id)
+                {
+                    m_index++;
+                    settle();
+                }
+                return *this;
+            }
+        private:
+            // moves on to the next existing entry: slots of deleted entries hold invalid_id, a class
+            // may have no entries at all; behind the last entry the iterator equals end()
+            void settle()
             {
                 while (m_id != config::invalid_id)
                 {
                     auto& container = m_confighost.m_containers[m_id];
-                    if ((container.size() - 1) > m_index)
+                    while (m_index < container.size() && container[m_index] == config::invalid_id)
                     {
                         m_index++;
-                        return *this;
+                    }
+                    if (m_index < container.size())
+                    {
+                        return;
+                    }
+                    m_index = 0;
+                    if constexpr (recursive)
+                    {
+                        m_id = container.id_parent_inherited;
                     }
                     else
                     {
-                        m_index = 0;
-                        if constexpr (recursive)
-                        {
-                            m_id = container.id_parent_inherited;
-                        }
-                        else
-                        {
-                            m_id = config::invalid_id;
-                        }
+                        m_id = config::invalid_id;
                     }
                 }
-                return *this;
             }
+        public:
             iterator_base<recursive> operator++(int) { iterator retval = *this; ++(*this); return retval; }
             bool operator==(iterator_base<recursive> other) const { return m_id == other.m_id; }
             bool operator!=(iterator_base<recursive> other) const { return !(*this == other); }
